@@ -44,7 +44,7 @@ theorem local_assign [DecidableEq α] (E : Env α) : Local (applyAssign E) := by
 /-- What `applyMutate` returns, spelled out. -/
 theorem applyMutate_ok {E : Env α} {w w1 : World α} {p : Pair} {op : Op α}
     {r : Option α} {y : Option (Op α)} (h : applyMutate E w p op = .ok (w1, r, y)) :
-    E.isList p.2 = true ∧ ∃ o, listStep (E.tl p) (w.list p) op = .ok o ∧ r = o.ret ∧
+    E.isList p = true ∧ ∃ o, listStep (E.tl p) (w.list p) op = .ok o ∧ r = o.ret ∧
       ((o.event = none ∧ y = none ∧ w1 = { w with val := upd w.val p (.l o.items) }) ∨
        (∃ e, o.event = some e ∧ y = (if p ∈ w.hooked then some (eventOp e) else none) ∧
         w1 = { w with val := upd w.val p (.l o.items), nItems := upd w.nItems p (w.nItems p + 1) })) := by
